@@ -36,7 +36,8 @@ pub fn run_source(src: &str, filename: &str) -> String {
         }
         let (facts, optimization_plan) = resolver.into_artifacts();
 
-        // After resolver scope drops, scratch[1] is free for use as frame arena.
+        // The resolver's working memory goes now, so that scratch[1] is free for use as frame arena.
+        drop(res_arena);
         let frame = scratch_arena(Some(&arena));
         let mut runtime = Runtime::new(&arena, Some(&frame));
         let err = runtime.run_with_analysis(root, &facts, optimization_plan.as_ref());
